@@ -56,5 +56,5 @@ for c in "$@"; do
   echo "check $c on patched /repo: exit $rc, VIOLATION lines $v: $(grep -m1 '^VIOLATION' "$OUT/check.$c.log" | cut -c1-200)"
   RES="$RES $c:$rc"
 done
-git -C /repo checkout -- . ; git -C /repo status --porcelain | head -3
+git -C /repo checkout -- . ; git -C /repo clean -fdq ; git -C /repo status --porcelain | head -3
 echo "SUMMARY $ID demo_orig=$D0 build=$B tests=$T demo_patched=$D1 checks=$RES"
